@@ -19,7 +19,7 @@ def rowStr (r : Row) : String :=
   let prev := match r.prev with
     | some p => toString p
     | none => "nil"
-  s!"{r.height}:{r.id}:{stStr r.status}:{r.from_}:{r.to_}:{r.retry}:{prev}:{r.new}"
+  s!"{r.height}:{r.id}:{stStr r.status}:{r.from_}:{r.to_}:{r.retry}:{prev}:{r.new}{if r.opt then ":o" else ""}"
 
 def rowsStr (loc : List Row) : String :=
   if loc.isEmpty then "-" else ";".intercalate (loc.map rowStr)
@@ -93,6 +93,8 @@ def step (w : W) (ws : List String) : W × String :=
     | some r, some st, some ms, some op =>
       ({ s := { cfg := { retry := r, start := st, maxSize := ms, omitPrev := op, fep := rest = ["1"] } } }, "ok")
     | _, _, _, _ => (w, "bad-op")
+  | ["opt", "on"] => ({ w with s := Aggkit.Aggsender.step sizeFloat w.s (.opt true) }, "ok")
+  | ["opt", "off"] => ({ w with s := Aggkit.Aggsender.step sizeFloat w.s (.opt false) }, "ok")
   | ["prover", "fail"] => ({ w with s := Aggkit.Aggsender.step sizeFloat w.s (.prover .fail) }, "ok")
   | ["prover", "notyet"] => ({ w with s := Aggkit.Aggsender.step sizeFloat w.s (.prover .notYet) }, "ok")
   | ["prover", "cut", k] => match k.toNat? with
